@@ -342,6 +342,9 @@ func VerifyPSS(pub *PublicKey, hash crypto.Hash, digest []byte, sig []byte, opts
 	// 	...
 	// 	return boring.VerifyRSAPSS(bkey, hash, digest, sig, opts.saltLength())
 	// }
+	if err := checkPub(pub); err != nil {
+		return err
+	}
 	if len(sig) != pub.Size() {
 		return ErrVerification
 	}
